@@ -126,11 +126,44 @@ func (vc *VC) mergeVals(name string, vals []Val, pcs []Term) Val {
 // ---------------------------------------------------------------------------
 
 func (vc *VC) execBlock(fr *frame, st *State, stmts []ast.Stmt) *State {
-	for _, s := range stmts {
+	for i, s := range stmts {
 		if st == nil {
 			return nil
 		}
+		vc.pendingOuts = nil
 		st = vc.execStmt(fr, st, s)
+		if outs := vc.pendingOuts; vc.splitJoins && !fr.inlined && len(outs) > 1 {
+			// `nomerge`: the rest of the block is executed once per branch of the if / switch just
+			// executed; the states are joined at the end of the block (returns are checked per path)
+			vc.pendingOuts = nil
+			var ends []*State
+			for _, o := range outs {
+				if fr.stmtOrd != nil && fr.contract != nil {
+					if n, ok := fr.stmtOrd[s]; ok {
+						label := fmt.Sprintf("stmt%d", n)
+						if len(fr.contract.At[label]) > 0 {
+							saved := fr.specPos
+							fr.specPos = s.End()
+							vc.applyHints(fr, o, label)
+							fr.specPos = saved
+						}
+					}
+				}
+				e := vc.execBlock(fr, o, stmts[i+1:])
+				if sub := vc.blockOuts; len(sub) > 1 {
+					ends = append(ends, sub...)
+				} else if e != nil {
+					ends = append(ends, e)
+				}
+				vc.blockOuts = nil
+			}
+			vc.pendingOuts = nil
+			m := vc.merge(ends...)
+			vc.blockOuts = ends
+			return m
+		}
+		vc.pendingOuts = nil
+		vc.blockOuts = nil
 		// `at stmtN:` hints apply right after the N-th statement of the function (source order), with the
 		// Go locals in scope there
 		if st != nil && fr.stmtOrd != nil && fr.contract != nil && !fr.inlined {
@@ -227,10 +260,35 @@ func (vc *VC) execStmt(fr *frame, st *State, s ast.Stmt) *State {
 		s1.pc = vc.newPC(st, c)
 		s2 := st.clone()
 		s2.pc = vc.newPC(st, Not(c))
+		vc.blockOuts = nil
 		r1 := vc.execBlock(fr, s1, x.Body.List)
+		o1 := vc.blockOuts
+		vc.blockOuts = nil
 		var r2 *State = s2
+		var o2 []*State
 		if x.Else != nil {
 			r2 = vc.execStmt(fr, s2, x.Else)
+			o2 = vc.blockOuts
+			if len(o2) <= 1 {
+				o2 = vc.pendingOuts
+			}
+			vc.blockOuts = nil
+		}
+		if vc.splitJoins {
+			var outs []*State
+			if len(o1) > 1 {
+				outs = append(outs, o1...)
+			} else if r1 != nil {
+				outs = append(outs, r1)
+			}
+			if len(o2) > 1 {
+				outs = append(outs, o2...)
+			} else if r2 != nil {
+				outs = append(outs, r2)
+			}
+			m := vc.merge(r1, r2)
+			vc.pendingOuts = outs
+			return m
 		}
 		return vc.merge(r1, r2)
 	case *ast.ForStmt:
@@ -669,6 +727,17 @@ func (vc *VC) execSwitch(fr *frame, st *State, x *ast.SwitchStmt, label string) 
 		outs = append(outs, fallIn)
 	}
 	outs = append(outs, bc.states...)
+	if vc.splitJoins {
+		var live []*State
+		for _, o := range outs {
+			if o != nil {
+				live = append(live, o)
+			}
+		}
+		m := vc.merge(outs...)
+		vc.pendingOuts = live
+		return m
+	}
 	return vc.merge(outs...)
 }
 
